@@ -222,6 +222,24 @@ func (p stProp) Gen(r *Rand, idx int, tier string) Sx {
 					nextTid++
 					ops = append(ops, L(A(4), AI(t), AI(o), AI(i)), L(A(5), AI(t)))
 				}
+				if r.Chance(30) && len(objs[x]) >= 2 {
+					// racing uploads of one object under the two unrelated names: the one under
+					// pr[0] starts first, carries WRONG content and finishes last; the valid one
+					// under pr[1] completes in between.  The invalid uploader must fail and gain
+					// no visibility from the other's copy.
+					t0 := nextTid
+					nextTid++
+					bad := append([]byte(nil), objs[x]...)
+					bad[len(bad)-1] ^= 0x55
+					cut := 1 + r.Intn(len(bad)-1)
+					ops = append(ops, L(A(1), AI(t0), AI(x), AI(pr[0])), L(A(2), AI(t0), LBytes(bad[:cut])))
+					put(x, pr[1])
+					ops = append(ops, L(A(2), AI(t0), LBytes(bad[cut:])), L(A(3), AI(t0), A(0)))
+					for j := range anc {
+						get(x, j)
+					}
+					continue
+				}
 				put(x, pr[0])
 				put(x, pr[1])
 				for k := cur + nw + r.Intn(2); k > 0; k-- {
